@@ -105,6 +105,7 @@ class SimChannel:
             t = dst.last_rx
         dst.last_rx = t
         self.ctx.at(t, _Delivery(dst, can_id, bytes(data), rtr, ext, t, error))
+        return t
 
     def frames(self, can_id=None, src=None, since=0):
         out = []
